@@ -96,7 +96,8 @@ pub fn check_overlaps(input: &[Lint], output: &[Lint]) -> Option<LintViolation> 
     for a in 0..output.len() {
         for b in a + 1..output.len() {
             let (x, y) = (&output[a].span, &output[b].span);
-            if x.start < y.end && y.start < x.end {
+            // a common character exists iff the intersection is non-empty (zero-width spans cover nothing)
+            if x.start.max(y.start) < x.end.min(y.end) {
                 return Some(LintViolation {
                     clause: "disjoint",
                     detail: format!("kept lints {}..{} and {}..{} share a character", x.start, x.end, y.start, y.end),
